@@ -949,8 +949,22 @@ func (e *Enc) applyAtsIn(in ssa.Instruction, kind, name string, pos token.Pos, a
 			}
 		}
 	}
+	// channel-qualified form: "send respCh#0", "before recv closeCh" (every occurrence)
+	anchor5, anchor6 := "", ""
+	if (base == "send" || base == "recv") && in != nil {
+		if cn := chanOperandName(in); cn != "" {
+			pre := ""
+			if strings.HasPrefix(kind, "before ") {
+				pre = "before "
+			}
+			anchor5 = pre + cn
+			if q, ok := e.siteOrdF[in]; ok {
+				anchor6 = fmt.Sprintf("%s#%d", anchor5, q)
+			}
+		}
+	}
 	for ai, at := range e.fc.Ats {
-		if at.Anchor != anchor1 && at.Anchor != anchor2 && (anchor3 == "" || at.Anchor != anchor3) && (anchor4 == "" || at.Anchor != anchor4) {
+		if at.Anchor != anchor1 && at.Anchor != anchor2 && (anchor3 == "" || at.Anchor != anchor3) && (anchor4 == "" || at.Anchor != anchor4) && (anchor5 == "" || at.Anchor != anchor5) && (anchor6 == "" || at.Anchor != anchor6) {
 			continue
 		}
 		e.atHit[ai] = true
@@ -1374,10 +1388,19 @@ func (e *Enc) execSelect(in *ssa.Select) {
 	e.atSelect = in
 	e.atVars["selchan"] = SV{T: chosen, Sort: "Int"}
 	e.atVars["selsend"] = SV{T: chosenSend, Sort: "Bool"}
+	// selcases: number of communication cases; selblocking: the select has no default case
+	e.atVars["selcases"] = SV{T: tInt(int64(len(in.States))), Sort: "Int"}
+	if in.Blocking {
+		e.atVars["selblocking"] = SV{T: tTrue, Sort: "Bool"}
+	} else {
+		e.atVars["selblocking"] = SV{T: tFalse, Sort: "Bool"}
+	}
 	e.applyAts("select", "", in.Pos(), sargs, tup[:2])
 	e.atSelect = nil
 	delete(e.atVars, "selchan")
 	delete(e.atVars, "selsend")
+	delete(e.atVars, "selcases")
+	delete(e.atVars, "selblocking")
 	e.atArgTypes = nil
 	e.atResTypes = nil
 }
